@@ -355,8 +355,12 @@ def run_check(prop, tier, seed, jobs=None):
     }
     os.makedirs(os.path.join(VERIF, "evidence"), exist_ok=True)
     json.dump(ev, open(os.path.join(VERIF, "evidence", "%s.json" % prop), "w"), indent=1, default=str)
+    slow = sorted(((r.get("wall_s", 0), r.get("name")) for r in results), reverse=True)[:3]
+    ev["coverage"]["slowest_instantiations"] = [[n, w] for w, n in slow]
+    json.dump(ev, open(os.path.join(VERIF, "evidence", "%s.json" % prop), "w"), indent=1, default=str)
     for l in lines:
         print(l)
+    print("slowest: %s" % slow)
     print("%s tier=%s seed=%d insts=%d paths=%d queries=%s validated=%d replays=%d wall=%.1fs exit=%d"
           % (prop, tier, seed, len(insts), tot["paths"], dict(qtot), validated, replays_run, wall, exit_code))
     return exit_code
